@@ -4,7 +4,8 @@
    joins_model are the functions C11_Check.check_case evaluates on every run.
    [typed ks1 ks2]: corresponding key columns have the same SQL type (schema typing) - the only
    hypothesis on keys; nothing is assumed about their contents. *)
-From Verif Require Import Base C11_Model C11_Proofs C11_Proofs2 C11_Proofs3 C11_Proofs4 C11_Proofs5.
+From Verif Require Import Base C11_Model C11_Proofs C11_Proofs2 C11_Proofs3 C11_Proofs4 C11_Proofs5
+  C11_Scan C11_ScanProofs.
 Open Scope Z_scope.
 
 (* Preload, one hop, every relation kind that matches on key columns (has one, has many, belongs to,
@@ -120,3 +121,85 @@ Example c11_test_expectations :
   to_string_key [KInt 1; KInt 2; KInt 3] = "1_2_3"%string /\
   to_string_key [KInt 1; KNil; KInt 3] = "1_nil_3"%string.
 Proof. exact encoding_keeps_tests. Qed.
+
+(* ================= the RECORDS handed out (C11_Scan: SELECT list + scan.go) =================
+   [find_m2m_recs], [plain_recs], [joins_recs] are evaluated by check_case on every case against what the
+   attached records hold in memory, column for column.  [mcols] = the related model's columns, [rows] = its
+   stored rows by uid; nothing is assumed about the column names of the join table. *)
+
+(* many2many Association().Find (related JOIN join_table): the column list names the related model's own
+   columns when the session asks for QueryFields (association.go buildCondition) or the FROM clause carries
+   joins (callbacks/query.go) - either suffices - and then every record returned IS the stored related
+   row, once per (row, join row) pair of the ON clause, WHATEVER columns the join table has *)
+Theorem c11_find_m2m_records : forall qf fj h ps js jcols jrows cs mcols rows,
+  qf || fj = true -> NoDup mcols -> rows_wf mcols rows ->
+  find_m2m_recs to_string_key (names_model qf false fj) h ps js jcols jrows cs mcols rows
+  = find_m2m_rows to_string_key h ps js jrows cs rows.
+Proof. exact find_m2m_recs_named. Qed.
+Print Assumptions c11_find_m2m_records.
+
+(* with neither (`SELECT *`) this holds only when the join table shares no column name with the model *)
+Theorem c11_find_m2m_star_partial : forall h ps js jcols jrows cs mcols rows,
+  NoDup mcols -> rows_wf mcols rows -> (forall c, In c jcols -> ~ In c mcols) ->
+  find_m2m_recs to_string_key (names_model false false false) h ps js jcols jrows cs mcols rows
+  = find_m2m_rows to_string_key h ps js jrows cs rows.
+Proof. exact (find_m2m_recs_star to_string_key). Qed.
+Print Assumptions c11_find_m2m_star_partial.
+
+(* ... and is false otherwise: a join model with its own `id` hands its value to the related record *)
+Theorem c11_scan_star_refuted :
+  scan_plain ["id"; "title"]%string
+    (select_row (names_model false false false) ["id"; "title"]%string [VInt 2; VText "b2"]
+                [("id"%string, VInt 4); ("reader_id"%string, VInt 1)])
+  = [VInt 4; VText "b2"].
+Proof. exact scan_star_collides. Qed.
+Print Assumptions c11_scan_star_refuted.
+
+(* Scan itself: with the model's columns named, the record is the model's row whatever else is joined *)
+Theorem c11_scan_named : forall mcols mvals extra,
+  NoDup mcols -> length mvals = length mcols ->
+  scan_plain mcols (select_row true mcols mvals extra) = mvals.
+Proof. exact scan_named. Qed.
+Print Assumptions c11_scan_named.
+
+(* Preload and has-kind Association().Find (one table): the records are the stored rows *)
+Theorem c11_preload_records : forall mcols rows uids,
+  NoDup mcols -> rows_wf mcols rows -> plain_recs mcols rows uids = rows_of rows uids.
+Proof. exact plain_recs_rows. Qed.
+Print Assumptions c11_preload_records.
+
+(* association Joins, scan.go's aliased columns: a LEFT JOIN row whose joined part holds a row with at
+   least one non-NULL column (its key) gives the relation a struct that IS that row - also when the
+   leading columns are NULL -, whatever columns [pre] the parent and other relations contribute *)
+Theorem c11_joins_scan_row : forall a mcols pre vs,
+  NoDup mcols -> length vs = length mcols -> forallb is_null vs = false ->
+  (forall cv, In cv pre -> match strip_alias a (fst cv) with
+                           | Some c => is_col c mcols = false
+                           | None => True
+                           end) ->
+  scan_joined a mcols (pre ++ joined_part a mcols (Some vs)) = Some vs.
+Proof. exact scan_joined_row. Qed.
+Print Assumptions c11_joins_scan_row.
+
+(* ... and when no row satisfies the ON clause the relation stays nil *)
+Theorem c11_joins_scan_none : forall a mcols pre,
+  (forall cv, In cv pre -> match strip_alias a (fst cv) with
+                           | Some c => is_col c mcols = false
+                           | None => True
+                           end) ->
+  scan_joined a mcols (pre ++ joined_part a mcols None) = None.
+Proof. exact scan_joined_none. Qed.
+Print Assumptions c11_joins_scan_none.
+
+Theorem c11_joins_records : forall a mcols rows uids,
+  NoDup mcols -> rows_wf mcols rows -> rows_keyed rows ->
+  joins_recs a mcols rows uids = rows_of rows uids.
+Proof. exact joins_recs_rows. Qed.
+Print Assumptions c11_joins_records.
+
+(* non-vacuity: a joined row whose first column is NULL (seeded change 10's shape) *)
+Example c11_joins_scan_instance :
+  scan_joined "One"%string ["lbl"; "id"; "uid"]%string
+    ([("k"%string, VInt 1)] ++ joined_part "One"%string ["lbl"; "id"; "uid"]%string (Some [VNull; VInt 7; VInt 301]))
+  = Some [VNull; VInt 7; VInt 301].
+Proof. reflexivity. Qed.
